@@ -9,8 +9,9 @@ import numpy as np
 
 from .core import HarnessError
 
-UNIFORM_FRACTIONS = (0.5, 0.0, 1.0 / 3.0, 1.0 - 2.0 ** -20)
-# menu entry 0 (the default answer) is the midpoint; entry 1 is the legal end-point draw.
+UNIFORM_FRACTIONS = (1.0 / 3.0, 0.0, 0.5, 1.0 - 2.0 ** -20)
+# menu entry 0 (the default answer) is 1/3: a random partition typically does NOT split at the midpoint (that case is
+# what the deterministic partitions cover), so default runs have unequal children; entry 1 is the legal end-point draw.
 NORMAL_STEPS = (0.0, -1.0, 1.0, -3.0, 3.0)
 
 _REAL = {}
